@@ -70,6 +70,10 @@ theorem angleCosS_eq {n : ℕ} (r : ℚ → ℚ) (p v₁ v₂ : Fin (n + 1) → 
     angleCosS r p v₁ v₂ = angleCos r p v₁ v₂ := by
   simp [angleCosS, angleCos, tvNormalizedS_eq]
 
+theorem angleCosS_clamped_eq {n : ℕ} (r : ℚ → ℚ) (p v₁ v₂ : Fin (n + 1) → ℚ) :
+    max (-1) (min 1 (angleCosS r p v₁ v₂)) = angleCosClamped r p v₁ v₂ := by
+  rw [angleCosS_eq]; rfl
+
 /-- row 0 of `Point.origin_to()` -/
 def originRow0 (j : Json) : R Json := withVec j "x" fun _ x => do
   needSq |mink x x|
@@ -122,7 +126,7 @@ def angleOp (j : Json) : R Json := withVec j "p" fun n p => do
   let w₂ := S (projHyp p v₂)
   needSq |mink w₁.toFn w₁.toFn|
   needSq |mink w₂.toFn w₂.toFn|
-  return ofQ (angleCosS rsqrt p v₁ v₂)
+  return ofQ (max (-1) (min 1 (angleCosS rsqrt p v₁ v₂)))
 
 /-- `polyVertex` with every iterate materialised -/
 def polyVertexS {n : ℕ} (c s th : ℚ) : ℕ → V (n + 3)
